@@ -91,9 +91,24 @@ def run(chk, prog):
     # __call__ / __abstract_call__ / __matmul__ : same prefix discipline
     for m in ("__call__", "__abstract_call__"):
         if m in ci.methods:
-            r = ev.eval_fn(ci.methods[m], ci.module, ci)
+            evc = Evaluator(prog)
+            evc.opaque_methods.add("_with_kwargs")
+            r = evc.eval_fn(ci.methods[m], ci.module, ci)
             full = ("bin", "+", SELF_ARGS, P("args"))
-            chk.require(mentions(r.ret, full), "DELEG-PREFIX", f"GenerativeFunctionClosure.{m}", "forwarded arguments", derived=show(r.ret)[:300], expected="self.args + args", where=chk.where(ci.module, ci.methods[m]))
+            kwm = [x for x in subterms(r.ret) if is_t(x, "bin") and x[1] == "|" and {x[2], x[3]} == {SELF_KW, P("kwargs")}]
+            okshape = False
+            for conds, leaf in r.returns:
+                pass
+            rets = [t for _, t in r.returns]
+            if m == "__call__":
+                want_plain = ("call", ("attr", ("call", ("attr", SELF_GF, "simulate"), (P("key"), full), ()), "get_retval"), (), ())
+                okshape = len(rets) == 2 and want_plain in rets and any(is_mcall(t, "get_retval") and is_mcall(t[1][1], "simulate") and t[1][1][2][0] == P("key") and is_t(t[1][1][2][1], "tuple") and t[1][1][2][1][1][0] == full and t[1][1][2][1][1][1] in kwm for t in rets)
+                exp = "gen_fn.simulate(key, self.args + args).get_retval()  /  kwarged.simulate(key, (self.args + args, merged kwargs)).get_retval()"
+            else:
+                want_plain = ("call", ("attr", SELF_GF, "__abstract_call__"), (("star", full),), ())
+                okshape = len(rets) == 2 and want_plain in rets and any(is_mcall(t, "__abstract_call__") and t[2] and t[2][0] == full and len(t[2]) == 2 and t[2][1] in kwm for t in rets)
+                exp = "gen_fn.__abstract_call__(*(self.args + args))  /  kwarged.__abstract_call__(self.args + args, merged kwargs)"
+            chk.require(okshape, "DELEG-PREFIX", f"GenerativeFunctionClosure.{m}", "forwarded arguments", derived=show(r.ret)[:300], expected=exp, where=chk.where(ci.module, ci.methods[m]))
             n_sites += 1
     if "__matmul__" in ci.methods:
         fn = ci.methods["__matmul__"]
